@@ -12,7 +12,7 @@ use crate::poolev::{jres, parse_events, timeline, PoolEv, SwapEv, Transition};
 use crate::report::{hash_of, Reporter};
 use crate::ssx::{hop_invariant, low_amp_or_skewed, InvariantVerdict};
 use crate::world::World;
-use crate::wpool::{log_uniform, swap_op};
+use crate::wpool::{log_uniform, pool_fee, swap_op};
 
 pub struct C03 {
     rng: StdRng,
@@ -296,4 +296,84 @@ impl Monitor for C03 {
             self.round_trip(w, s.post, rep);
         }
     }
+}
+
+
+/// W-kernel for the constant-product branch: the production `compute_swap` on generated states,
+/// biased towards the places where a rounding direction can flip (huge reserves, integer price
+/// ratios, powers of ten, dust offers).  Zero-fee value preservation x'y' >= xy is equivalent to
+/// gross output <= floor(ask * offer / (offer_pool + offer)).
+pub fn cp_kernel(seed: u64, n: usize) -> Reporter {
+    use crate::exact::bi;
+    use cosmwasm_std::Uint128;
+    use mantra_dex_std::pool_manager::{PoolInfo, PoolStatus, PoolType};
+    use num_integer::Integer;
+    let mut rep = Reporter::new("C03");
+    let mut rng = StdRng::seed_from_u64(seed ^ 0xC03C);
+    crate::ops::set_ctx(format!("workload=W-kernel (constant product) seed={seed}"));
+    for _ in 0..n {
+        let base: u128 = match rng.gen_range(0..5) {
+            0 => 10u128.pow(rng.gen_range(3..31)),
+            1 => log_uniform(&mut rng, 1_000, 10u128.pow(30)),
+            2 => 10u128.pow(rng.gen_range(18..31)),
+            _ => log_uniform(&mut rng, 10u128.pow(12), 10u128.pow(27)),
+        };
+        let ratio: u128 = match rng.gen_range(0..5) {
+            0 => 1,
+            1 => rng.gen_range(1..10),
+            2 => 10u128.pow(rng.gen_range(0..7)),
+            _ => 0, // unrelated second reserve
+        };
+        let (ro, ra) = if ratio > 0 {
+            let other = base.saturating_mul(ratio).min(10u128.pow(32));
+            if rng.gen_bool(0.5) { (base, other) } else { (other, base) }
+        } else {
+            (base, log_uniform(&mut rng, 1_000, 10u128.pow(30)))
+        };
+        let offer: u128 = match rng.gen_range(0..6) {
+            0 => rng.gen_range(1..10),
+            1 => rng.gen_range(1..2_000),
+            2 => 10u128.pow(rng.gen_range(0..12)),
+            3 => ro / rng.gen_range(1..1000).max(1) + 1,
+            _ => log_uniform(&mut rng, 1, ro.max(2)),
+        };
+        let fees = match rng.gen_range(0..3) {
+            0 => pool_fee(0, 0, 0, &[]),
+            1 => pool_fee(rng.gen_range(0..30), rng.gen_range(0..30), rng.gen_range(0..30), &[]),
+            _ => pool_fee(rng.gen_range(0..500), rng.gen_range(0..500), rng.gen_range(0..500), &[rng.gen_range(0..250)]),
+        };
+        let info = PoolInfo {
+            pool_identifier: "o.k".into(),
+            asset_denoms: vec!["tok0".into(), "tok1".into()],
+            lp_denom: "factory/x/o.k.LP".into(),
+            asset_decimals: vec![18, 18],
+            assets: vec![coin(ro, "tok0"), coin(ra, "tok1")],
+            pool_type: PoolType::ConstantProduct,
+            pool_fees: fees,
+            status: PoolStatus::default(),
+        };
+        let off = cosmwasm_std::Coin { denom: "tok0".into(), amount: Uint128::new(offer) };
+        let r = std::panic::catch_unwind(std::panic::AssertUnwindSafe(|| pool_manager::helpers::compute_swap(&info, &off, "tok1")));
+        let comp = match r {
+            Ok(Ok(c)) => c,
+            _ => {
+                rep.count("cp_k_kernel", "error_or_abort");
+                continue;
+            }
+        };
+        let gross = comp.return_amount.u128() + comp.swap_fee_amount.u128() + comp.protocol_fee_amount.u128() + comp.burn_fee_amount.u128() + comp.extra_fees_amount.u128();
+        let max = (bi(ra) * bi(offer)).div_floor(&(bi(ro) + bi(offer)));
+        let abs = hash_of(&((ro as f64).log10() as i32, (ra as f64).log10() as i32, (offer as f64).log10() as i32, ratio.min(11)));
+        if bi(gross) <= max {
+            rep.held("cp_k_kernel", abs, || json!({"reserves": [ro.to_string(), ra.to_string()], "offer": offer.to_string(), "gross_output": gross.to_string(), "largest_value_preserving_output": max.to_string()}));
+        } else {
+            rep.failed(
+                "cp_k_kernel",
+                None,
+                format!("constant-product quote pays {gross} for {offer} into {ro}/{ra}: more than floor(ask x offer / (pool + offer)) = {max}, so x*y falls"),
+                witness(json!({"reserves": [ro.to_string(), ra.to_string()], "offer": offer.to_string(), "gross_output": gross.to_string(), "max": max.to_string()})),
+            );
+        }
+    }
+    rep
 }
